@@ -45,6 +45,13 @@ class Resource:
         self.closed += 1
         if self.close_stamp is None and _Run.cur is not None:
             self.close_stamp = _Run.cur["sched"].stamp()
+        if _Run.cur is not None and _Run.cur.get("close_untracks"):
+            # an idempotent clean-up: whoever closes the resource also takes it off the connection's list
+            _Run.cur["probe"]("resource_close_untracks_itself")
+            try:
+                cctx.untrack_resource(self)
+            except E.PyroError:
+                pass        # (closed by a thread without a calling connection)
         if _Run.cur is not None and _Run.cur.get("close_raises") and self.idx == 0:
             raise RuntimeError("resource close failed")
 
@@ -187,7 +194,7 @@ class ConnWorld(World):
                           "bad_handshake": rng.random() < 0.1, "hook_raises": rng.random() < 0.15,
                           "ann": rng.random() < 0.5})
         return {"servertype": servertype, "commtimeout": commt, "conns": conns, "close_raises": rng.random() < 0.15,
-                "linger": rng.choice([0, 0, 30]), "ctor_tracks": rng.random() < 0.5,
+                "linger": rng.choice([0, 0, 30]), "ctor_tracks": rng.random() < 0.5, "close_untracks": rng.random() < 0.12,
                 "net": {"p_frag": rng.choice([0.0, 0.5]), "shuffle_select": rng.random() < 0.5,
                         "rst_discards_rx": rng.random() < 0.5},
                 "p_block": rng.choice([0.0, 0.3, 1.0])}
@@ -198,6 +205,7 @@ class ConnWorld(World):
         ctx.probe(plan["servertype"])
         run = _Run.cur = {"resources": {}, "untracked": set(), "hooks": {}, "conn_objs": {}, "hook_raises": set(),
                           "sessions": 0, "sched": sched, "close_raises": plan["close_raises"], "hook_stamps": [],
+                          "close_untracks": plan.get("close_untracks", False), "probe": ctx.probe,
                           "creating_for": {}, "ctor_tracks": plan.get("ctor_tracks", False), "ctor_tracked": 0, "hook_slow": {},
                           "ow_tracked": 0}
         gi = SV.Daemon._getInstance
